@@ -36,9 +36,9 @@ type Solver struct {
 func NewSolver(kind string, timeoutMs int) (*Solver, error) {
 	s := &Solver{timeout: timeoutMs}
 	switch kind {
-	case "", "z3":
+	case "z3":
 		s.bin, s.args = "z3", []string{"-in", "-smt2"}
-	case "z3-new":
+	case "", "z3-new":
 		s.bin, s.args = "z3-new", []string{"-in", "-smt2"}
 	case "cvc5":
 		s.bin, s.args = "cvc5", []string{"--incremental", "--lang=smt2", "--produce-models", "--fp-exp", fmt.Sprintf("--tlimit-per=%d", timeoutMs)}
